@@ -97,6 +97,36 @@ func waitMrp(cmd *exec.Cmd, timeout time.Duration) (exit int, timedOut bool) {
 	}
 }
 
+// recordComplete writes <events>.complete: the ids of the jobs started in
+// this incarnation whose completion marker exists on disk now (the stage's
+// own 'end' record only says the process finished; a completion is recorded
+// when the monitor has written _complete).
+func recordComplete(evfile string) {
+	var done []string
+	for _, e := range readEventsRaw(evfile) {
+		if len(e) >= 6 && e[1] == "start" {
+			if _, err := os.Stat(filepath.Join(e[5], "_complete")); err == nil {
+				done = append(done, e[2])
+			}
+		}
+	}
+	os.WriteFile(evfile+".complete", []byte(strings.Join(done, "\n")+"\n"), 0o644)
+}
+
+func readEventsRaw(path string) [][]string {
+	b, err := os.ReadFile(path)
+	if err != nil {
+		return nil
+	}
+	var out [][]string
+	for _, l := range strings.Split(string(b), "\n") {
+		if f := strings.Fields(l); len(f) > 0 {
+			out = append(out, f)
+		}
+	}
+	return out
+}
+
 func lockExists(dir, psid string) bool {
 	_, err := os.Stat(filepath.Join(dir, psid, "_lock"))
 	return err == nil
@@ -163,6 +193,7 @@ loop:
 		time.Sleep(500 * time.Microsecond)
 	}
 	<-exited
+	recordComplete(evfile)
 	res.Incarnations = append(res.Incarnations, incarnation{Exit: exit, TimedOut: timedOut, Signal: signalled,
 		LockAfter: lockExists(dir, psid), Events: countLines(evfile), Tail: tail(out.String(), 1500),
 		Ms: time.Since(t0).Milliseconds()})
@@ -187,12 +218,16 @@ loop:
 			break
 		}
 		e, to := waitMrp(cmd, 90*time.Second)
+		recordComplete(evfile)
 		res.Incarnations = append(res.Incarnations, incarnation{Exit: e, TimedOut: to,
 			LockAfter: lockExists(dir, psid), Events: countLines(evfile), Tail: tail(out.String(), 1500),
 			Ms: time.Since(t1).Milliseconds()})
 		if e == 0 {
 			break
 		}
+	}
+	for inc := range res.Incarnations {
+		recordComplete(filepath.Join(dir, fmt.Sprintf("%s.inc%d.events", psid, inc)))
 	}
 	res.Outs = readTopOuts(dir, psid)
 	printJSON(res)
@@ -229,13 +264,14 @@ func faultRunCmd(args []string) {
 			break
 		}
 		e, to := waitMrp(cmd, 90*time.Second)
+		recordComplete(evfile)
 		res.Incarnations = append(res.Incarnations, incarnation{Exit: e, TimedOut: to,
 			LockAfter: lockExists(dir, psid), Events: countLines(evfile), Tail: tail(out.String(), 2500),
 			Ms: time.Since(t0).Milliseconds()})
 		if inc == 0 {
 			// which stage does the failure report name?
 			for _, line := range strings.Split(out.String(), "\n") {
-				if strings.Contains(line, "_errors") || strings.Contains(line, "_assert") {
+				if strings.Contains(line, "_errors") || strings.Contains(line, "_assert") || strings.Contains(line, "(failed)") {
 					res.ErrorNames = append(res.ErrorNames, strings.TrimSpace(line))
 				}
 			}
@@ -243,6 +279,9 @@ func faultRunCmd(args []string) {
 		if e == 0 {
 			break
 		}
+	}
+	for inc := range res.Incarnations {
+		recordComplete(filepath.Join(dir, fmt.Sprintf("%s.inc%d.events", psid, inc)))
 	}
 	res.Outs = readTopOuts(dir, psid)
 	printJSON(res)
